@@ -229,10 +229,11 @@ func stripTrailsCanon(v any) string {
 }
 
 func typeNoNull(t ast.Type) string {
-	t = t.DeepCopy()
+	// t is a copy of the struct: only top-level fields are set; c17Canon
+	// renders what stripTrailsCanon renders without copying the type
 	t.Nullable = false
 	t.Default = nil
-	return stripTrailsCanon(t)
+	return c17Canon(t)
 }
 
 // resolveAll follows references across schemas (independent of cog).
@@ -416,6 +417,13 @@ func c17Check(c c17Case) []vlib.Violation {
 	if err != nil || len(builders) == 0 {
 		return []vlib.Violation{vlib.V("skip:rejected", "no builders: %v", err)}
 	}
+	return c17CheckDerived(c, schemas, builders)
+}
+
+// c17CheckDerived: the check proper, given the schemas and builders derived
+// from c.IR for c.Lang (the generator has derived them already and only read
+// them since; a replay derives them in c17Check).
+func c17CheckDerived(c c17Case, schemas ast.Schemas, builders ast.Builders) []vlib.Violation {
 	kinds := map[string]bool{}
 	for _, r := range c.Rules {
 		kinds[r.Kind] = true
@@ -438,15 +446,12 @@ func c17Check(c c17Case) []vlib.Violation {
 		return []vlib.Violation{vlib.V("skip:ill-typed-before", "%s", pre[0].Msg)}
 	}
 	snapshot := map[string]string{}
-	snapOptions := map[string]map[string]string{}
+	inputCanon := make([]string, 0, len(builders)) // builder by builder, in order
 	for _, b := range builders {
-		snapshot[builderKey(b)] = walk.Canon(b)
-		snapOptions[builderKey(b)] = map[string]string{}
-		for _, o := range b.Options {
-			snapOptions[builderKey(b)][o.Name] = walk.Canon(o)
-		}
+		cb := walk.Canon(b)
+		snapshot[builderKey(b)] = cb
+		inputCanon = append(inputCanon, cb)
 	}
-	inputCanon := walk.Canon(builders)
 
 	rewriter, lerr := c17Rewriter(c.Rules)
 	if lerr != nil {
@@ -476,7 +481,11 @@ func c17Check(c c17Case) []vlib.Violation {
 		return []vlib.Violation{vlib.V("skip:rule-error", "rules refused: %v", aerr)}
 	}
 	var vs []vlib.Violation
-	if walk.Canon(builders) != inputCanon {
+	mutated := len(builders) != len(inputCanon)
+	for i := 0; !mutated && i < len(builders); i++ {
+		mutated = walk.Canon(builders[i]) != inputCanon[i]
+	}
+	if mutated {
 		vs = append(vs, vlib.V("input-mutated", "ApplyTo modified the builders it was handed (a deep copy was passed)"))
 	}
 
@@ -550,6 +559,10 @@ func c17Check(c c17Case) []vlib.Violation {
 		}
 	}
 
+	// every rule of the sequence judged on its own, against the builders as
+	// they are when the rewriter reaches it (c17_steps_test.go)
+	vs = append(vs, c17Steps(c, schemas, builders, out)...)
+
 	// rule contracts, for a single rule applied to the freshly derived builders
 	if len(c.Rules) == 1 {
 		vs = append(vs, c17Contract(c, schemas, builders, out)...)
@@ -583,6 +596,29 @@ func c17Stacked(c c17Case) string {
 			ordered = append(ordered, r)
 		}
 	}
+	// A builder rule that gives a builder another name (rename, duplicate)
+	// makes two names for the same options: `by_builder: RenamedPanel.title`
+	// and `by_name: Panel.title` are then the same option. The names are
+	// unified (for duplicate this takes the copy and its source for one
+	// builder: a rule by object name reaches both anyway).
+	alias := map[string]string{}
+	var find func(k string) string
+	find = func(k string) string {
+		if p, ok := alias[k]; ok && p != k {
+			root := find(p)
+			alias[k] = root
+			return root
+		}
+		return k
+	}
+	for _, r := range ordered {
+		if r.On == "builder" && (r.Kind == "rename" || r.Kind == "duplicate") && r.As != "" {
+			a, b := find(strings.ToLower(r.Pkg+"/"+r.SelA)), find(strings.ToLower(r.Pkg+"/"+r.As))
+			if a != b {
+				alias[b] = a
+			}
+		}
+	}
 	byOption := map[string][]string{}
 	var keys []string
 	// option names change along the way (rename, and the options created by
@@ -595,7 +631,7 @@ func c17Stacked(c c17Case) string {
 		if r.On != "option" {
 			continue
 		}
-		bkey := strings.ToLower(r.Pkg + "/" + r.SelA)
+		bkey := find(strings.ToLower(r.Pkg + "/" + r.SelA))
 		if r.Kind == "rename" || r.Kind == "duplicate" {
 			for _, o := range r.SelOpts {
 				renamed[bkey+"/"+strings.ToLower(r.As)] = bkey + "/" + strings.ToLower(o)
@@ -648,7 +684,7 @@ func c17Stacked(c c17Case) string {
 	// arguments that rule produced: the same root cause.
 	seenMultiplicity := map[string]string{}
 	for _, r := range ordered {
-		bkey := strings.ToLower(r.Pkg + "/" + r.SelA)
+		bkey := find(strings.ToLower(r.Pkg + "/" + r.SelA))
 		switch {
 		case r.On == "option" && c17MultiplicityKinds[r.Kind]:
 			if prev, ok := seenMultiplicity[bkey]; ok && prev != r.Kind {
@@ -1072,7 +1108,12 @@ func c17DrawRule(rt *rapid.T, lang string, schemas ast.Schemas, builders ast.Bui
 			if prev.Kind == "rename" {
 				r.SelOpts = []string{prev.As}
 			}
-			r.Kind = rapid.SampledFrom([]string{"disjunction_as_options", "disjunction_as_options", "struct_fields_as_options", "struct_fields_as_arguments", "array_to_append", "map_to_index", "unfold_boolean", "rename_arguments", "duplicate"}).Draw(rt, "followkind")
+			followKinds := []string{"disjunction_as_options", "disjunction_as_options", "struct_fields_as_options", "struct_fields_as_arguments", "array_to_append", "map_to_index", "unfold_boolean", "rename_arguments", "duplicate"}
+			if prev.Kind == "array_to_append" || prev.Kind == "map_to_index" {
+				// the documented stacking: one option per branch of the element type
+				followKinds = append(followKinds, "disjunction_as_options", "disjunction_as_options", "disjunction_as_options", "disjunction_as_options", "disjunction_as_options")
+			}
+			r.Kind = rapid.SampledFrom(followKinds).Draw(rt, "followkind")
 			switch r.Kind {
 			case "duplicate":
 				r.As = "dup" + r.SelOpts[0]
@@ -1141,6 +1182,23 @@ func c17DrawRule(rt *rapid.T, lang string, schemas ast.Schemas, builders ast.Bui
 		r.SelKind, r.SelA, r.SelOpts = "opt_by_name", name(b.For.Name), []string{"nothing"}
 		return r
 	}
+	if r.Kind == "array_to_append" || r.Kind == "map_to_index" {
+		// collections of a disjunction are the ones the documented stacking
+		// (…then disjunction_as_options) has something to do on: prefer them
+		var rich []bo
+		for _, cd := range cands {
+			if len(cd.o.Args) == 0 {
+				continue
+			}
+			t := cd.o.Args[0].Type
+			if (t.IsArray() && t.Array.ValueType.IsDisjunction()) || (t.IsMap() && t.Map.ValueType.IsDisjunction()) {
+				rich = append(rich, cd)
+			}
+		}
+		if len(rich) > 0 && rapid.Bool().Draw(rt, "richcollection") {
+			cands = rich
+		}
+	}
 	pick := cands[rapid.IntRange(0, len(cands)-1).Draw(rt, "bo")]
 	r.Pkg = pick.b.Package
 	opt := name(pick.o.Name)
@@ -1178,10 +1236,13 @@ func TestC17(t *testing.T) {
 	run := vlib.Begin(t, "C17")
 	defer run.Finish(t)
 	run.Describe(
-		"Builders derived (BuilderGenerator) from generated IRs after the built-in chain of go/java/php/python/typescript x sequences of 1-6 builder rules (omit, rename, duplicate, merge_into, properties, promote_options_to_constructor) and option rules (omit, rename, rename_arguments, unfold_boolean, struct_fields_as_arguments/options, array_to_append, map_to_index, disjunction_as_options, duplicate, add_comments), scope `all` or the language, selectors by_object/by_name and by_name/by_builder/by_names with exact / case-flipped / absent targets, rendered as veneer YAML files, loaded by yaml.VeneersLoader and applied by Rewriter.ApplyTo. Invariants: every assignment path names an existing chain of fields of the built object with matching types (index steps for maps/arrays); every argument used by an assignment, constraint or index is declared by its option / constructor; argument type matches the target (element type for append); builders no rule mentions are unchanged; ApplyTo equals applying the common stage then the language stage; single rules meet their documented contract (omit removes exactly, rename changes only the name, duplicate yields an equal, independent copy incl. defaults and factories, the multiplicity-changing option rules still assign the same target with the right method). Non-trivial: a rule selected something; distinct by case hash.",
+		"Builders derived (BuilderGenerator) from generated IRs after the built-in chain of go/java/php/python/typescript x sequences of 1-6 builder rules (omit, rename, duplicate, merge_into, properties, promote_options_to_constructor) and option rules (omit, rename, rename_arguments, unfold_boolean, struct_fields_as_arguments/options, array_to_append, map_to_index, disjunction_as_options, duplicate, add_comments), scope `all` or the language, selectors by_object/by_name and by_name/by_builder/by_names{object|builder} with exact / case-flipped / absent targets, rendered as veneer YAML files, loaded by yaml.VeneersLoader and applied by Rewriter.ApplyTo. Histories: half of the rules after the first are drawn against the builders as the rules drawn so far leave them (computed by applying them) and placed in a stage applied after those rules, so that selectors meet builders that carry a name of their own (rename / duplicate ... as), two builders for one object, and renamed / duplicated / produced options; a third of those aim at the builders the last builder rename / duplicate touched (the renamed builder, the copy and its source). Invariants on the outcome: every assignment path names an existing chain of fields of the built object with matching types (index steps for maps/arrays); every argument used by an assignment, constraint or index is declared by its option / constructor; argument type matches the target (element type for append); builders no rule mentions are unchanged; ApplyTo equals applying the common stage then the language stage; single rules meet their documented contract (omit removes exactly, rename changes only the name, duplicate yields an equal, independent copy incl. defaults and factories, the multiplicity-changing option rules still assign the same target with the right method). Step oracle (every sequence, every rule): the rules are replayed prefix by prefix in the documented order of application (common builder rules, common option rules, the language's builder rules, its option rules; file after file) and each rule is judged against the builders as they are when it is reached, the last state being ApplyTo's outcome over the veneer files: an independent model of the documented selectors (by_object: package + object; by_name: package + builder name; option by_name / by_names.object: object's package + object name + option names; by_builder / by_names.builder: builder's package + builder name + option names; names case-insensitive) says what the rule selects there; every builder it does not select, and every option it does not select in a builder where it selects some, comes out of the step unchanged (trails aside), no builder appears that is not the product of a selected one, a builder disappears only when a rule that may remove options selected all of them; on the selected ones omit removes, rename yields the same builder / option under the new name and nothing under the old, duplicate yields an identical copy (exclude_options honoured) and keeps the source, add_comments appends exactly its comments, rename_arguments renames the arguments. Non-trivial: a rule selected something (in the derived builders or in the evolved ones it was drawn against); distinct by case hash.",
 		"rules that the loader or a rule itself refuses with an error are acceptable outcomes (counted)",
 		"builders that are not well-typed before any rule is applied are outside what the check judges (counted as skipped)",
 		"paths composed under an `any` field are typed through their TypeHint",
+		"the step oracle judges the builders some rule mentions (selector, merge source or `as` name, in the rule's package); the others must come out of the whole sequence unchanged; where two builders share package, object and name, option steps are not paired (skipped)",
+		"in the step oracle the multiplicity-changing option rules are only held to leaving unselected builders / options alone: their own contract is checked for single rules on freshly derived options (stacked on rewritten options they are a listed finding)",
+		"the compose builder rule (composed_builder_name) and by_variant / generated_from_disjunction selectors are not generated: builders whose package differs from their object's package are not reached",
 	)
 	if vlib.RunReplay(t, run, c17Check) {
 		return
@@ -1202,12 +1263,56 @@ func TestC17(t *testing.T) {
 			n = 1
 		}
 		labels := []string{"lang:" + c.Lang}
+		selected := false
 		for i := 0; i < n; i++ {
-			r := c17DrawRule(rt, c.Lang, schemas, builders, c.Rules)
+			// Half of the rules that follow another are drawn against the builders
+			// as the rules so far leave them (names given by rename / duplicate,
+			// two builders for one object, renamed / duplicated / produced
+			// options), and placed in a stage that is applied after them; a third of
+			// those aim at the builders the last builder rename / duplicate
+			// touched (the copy and its source, the renamed builder).
+			cur, evolved := builders, false
+			if len(c.Rules) > 0 && rapid.Bool().Draw(rt, "evolved") {
+				if st := c17Evolved(schemas, builders, c.Lang, c.Rules); len(st) > 0 {
+					cur, evolved = st, true
+					if rapid.IntRange(0, 2).Draw(rt, "focus") == 0 {
+						if f := c17Focus(schemas, st, c.Rules); len(f) > 0 {
+							cur = f
+							labels = append(labels, "evolved_focus")
+						}
+					}
+				}
+			}
+			r := c17DrawRule(rt, c.Lang, schemas, cur, c.Rules)
+			if evolved {
+				labels = append(labels, "evolved_target")
+				for _, p := range c.Rules {
+					if p.Scope != "all" {
+						r.Scope = c.Lang // not before the rules whose outcome it is drawn against
+					}
+				}
+				for _, b := range cur {
+					if r.On == "builder" && selectsBuilder(r, schemas, b) {
+						selected = true
+						labels = append(labels, "selected:evolved:builder:"+r.Kind)
+						if c17OwnName(b) {
+							labels = append(labels, "selected:own-name-builder:"+r.SelKind)
+						}
+					}
+					for _, o := range b.Options {
+						if r.On == "option" && selectsOption(r, b, o) {
+							selected = true
+							labels = append(labels, "selected:evolved:option:"+r.Kind)
+							if c17OwnName(b) {
+								labels = append(labels, "selected:own-name-builder:"+r.SelKind)
+							}
+						}
+					}
+				}
+			}
 			c.Rules = append(c.Rules, r)
 			labels = append(labels, r.On+":"+r.Kind, "scope:"+map[bool]string{true: "all", false: "lang"}[r.Scope == "all"], "target:"+r.TargetClass)
 		}
-		selected := false
 		for _, r := range c.Rules {
 			for _, b := range builders {
 				if r.On == "builder" && selectsBuilder(r, schemas, b) {
@@ -1225,12 +1330,30 @@ func TestC17(t *testing.T) {
 		if n == 1 {
 			labels = append(labels, "single_rule")
 		}
+		// the documented stacking on a collection of a disjunction
+		for i := 1; i < len(c.Rules); i++ {
+			p, r := c.Rules[i-1], c.Rules[i]
+			if (p.Kind != "array_to_append" && p.Kind != "map_to_index") || r.Kind != "disjunction_as_options" || len(p.SelOpts) == 0 || len(r.SelOpts) == 0 || p.SelOpts[0] != r.SelOpts[0] {
+				continue
+			}
+			for _, b := range builders {
+				for _, o := range b.Options {
+					if len(o.Args) == 0 || !selectsOption(p, b, o) {
+						continue
+					}
+					t := o.Args[0].Type
+					if (t.IsArray() && t.Array.ValueType.IsDisjunction()) || (t.IsMap() && t.Map.ValueType.IsDisjunction()) {
+						labels = append(labels, "stacked:collection-of-disjunction>disjunction_as_options")
+					}
+				}
+			}
+		}
 		key := uint64(0)
 		if selected {
 			key = vlib.Hash(c)
 		}
 		run.Pending(c)
-		vs := c17Check(c)
+		vs := c17CheckDerived(c, schemas, builders)
 		kept := vs[:0]
 		for _, v := range vs {
 			if strings.HasPrefix(v.Sig, "skip:") && !strings.HasPrefix(v.Sig, "skip:panic:") {
